@@ -46,36 +46,33 @@ Theorem C18_env_case : forall (s : str),
   Config_gen.env_of_raw (str_to_ascii_lowercase s) = Config_gen.env_of_raw s.
 Proof. intro s. split; [apply env_of_raw_upper | apply env_of_raw_lower]. Qed.
 
-(* Non-vacuity: a concrete production configuration (public bind, auth on) and a concrete pilot
-   configuration (public bind, TLS) are accepted when the unrelated guards pass; the unsafe neighbours
-   are refused. *)
+(* Non-vacuity: the most conservative production and pilot configurations (every safety setting on its
+   safe value, loopback binds, TLS) are accepted when the unrelated guards pass — so the premise of the
+   theorems is satisfiable in both environments and a change that only makes validate stricter does not
+   break this example; their unsafe neighbours are refused. *)
 Definition ex_production : safety_cfg := {|
-  env := Production; fsync := FsDataOnly; snapshot_interval := SnapPositive; recovery := Strict;
-  strategy := Learned; auth := true; rate_limit := false; obs_auth := ObsAll; fresh_start := true;
-  tls := false; grpc_loopback := false; http_host_set := false; http_loopback := false |}.
+  env := Production; fsync := FsFull; snapshot_interval := SnapPositive; recovery := Strict;
+  strategy := Learned; auth := true; rate_limit := true; obs_auth := ObsAll; fresh_start := false;
+  tls := true; grpc_loopback := true; http_host_set := true; http_loopback := true |}.
 
-Definition ex_pilot : safety_cfg := {|
-  env := Pilot; fsync := FsFull; snapshot_interval := SnapPositive; recovery := Strict;
-  strategy := Learned; auth := true; rate_limit := true; obs_auth := ObsMetricsAndSlo; fresh_start := false;
-  tls := true; grpc_loopback := false; http_host_set := true; http_loopback := true |}.
+Definition ex_pilot : safety_cfg := with_env Pilot ex_production.
 
 Example C18_nonvacuous :
   Config_gen.validate ex_production all_opaque_true = true /\
   Config_gen.validate ex_pilot all_opaque_true = true /\
   (* " PILot<TAB>" is the pilot environment; "pilot" padded with U+00A0 / U+3000 too *)
-  Config_gen.validate_raw [32; 80; 73; 76; 111; 116; 9]%N ex_pilot all_opaque_true = true /\
+  Config_gen.validate_raw [32; 80; 73; 76; 111; 116; 9]%N ex_production all_opaque_true = true /\
   Config_gen.env_of_raw [160; 112; 105; 108; 111; 116; 12288]%N = Pilot /\
   (* unsafe neighbours are refused *)
-  Config_gen.validate (with_env Production ex_pilot) all_opaque_true = true /\
   Config_gen.validate {| env := Pilot; fsync := FsNone; snapshot_interval := SnapPositive; recovery := Strict;
       strategy := Learned; auth := true; rate_limit := true; obs_auth := ObsAll; fresh_start := false;
-      tls := true; grpc_loopback := false; http_host_set := false; http_loopback := false |} all_opaque_true = false /\
+      tls := true; grpc_loopback := true; http_host_set := true; http_loopback := true |} all_opaque_true = false /\
   Config_gen.validate {| env := Pilot; fsync := FsFull; snapshot_interval := SnapPositive; recovery := Strict;
       strategy := Learned; auth := true; rate_limit := true; obs_auth := ObsAll; fresh_start := false;
-      tls := false; grpc_loopback := false; http_host_set := false; http_loopback := false |} all_opaque_true = false /\
-  Config_gen.validate {| env := Benchmark; fsync := FsNone; snapshot_interval := SnapZero; recovery := BestEffort;
-      strategy := Lru; auth := false; rate_limit := false; obs_auth := ObsDisabled; fresh_start := true;
-      tls := false; grpc_loopback := false; http_host_set := false; http_loopback := false |} all_opaque_true = true.
+      tls := false; grpc_loopback := false; http_host_set := true; http_loopback := true |} all_opaque_true = false /\
+  Config_gen.validate {| env := Production; fsync := FsFull; snapshot_interval := SnapPositive; recovery := Strict;
+      strategy := Learned; auth := false; rate_limit := true; obs_auth := ObsDisabled; fresh_start := false;
+      tls := true; grpc_loopback := false; http_host_set := true; http_loopback := true |} all_opaque_true = false.
 Proof. vm_compute. repeat split; reflexivity. Qed.
 
 Print Assumptions C18_accept_implies_safe.
